@@ -108,6 +108,8 @@ class NumpyModel:
 
     def value_attr(self, base, attr, node):
         if isinstance(base, np.ndarray):
+            if attr == "dtype":
+                return ExtRef("numpy.float64")
             if attr == "shape":
                 return tuple(base.shape)
             if attr == "size":
@@ -1108,6 +1110,12 @@ class NumpyModel:
         for nm in ("random", "integers", "uniform", "normal", "choice", "permutation", "shuffle"):
             rng.native_methods[nm] = draw(nm)
         return rng
+
+    def np_finfo(self, dtype=None):
+        # float64 machine parameters as exact constants
+        from fractions import Fraction as Fr
+        return Record(None, {"eps": lift(Fr(1, 2 ** 52)), "tiny": lift(Fr(1, 2 ** 1022)), "max": INF, "resolution": lift(Fr(1, 10 ** 15)),
+                             "smallest_normal": lift(Fr(1, 2 ** 1022))}, label="finfo")
 
     def np_delete(self, *a, **k):
         return self.I.opaque("np.delete")
